@@ -16,13 +16,13 @@ func init() {
 
 // i6Exceptions: arithmetic on full-range script integers that cannot change a result.
 var i6Exceptions = map[string]string{
-	"(starlark.rangeValue).Index: MUL":       "0 <= i < len, and len was computed so that start + i*step is an element between start and stop (sound whenever rangeLen did not overflow, which is the separate known finding)",
-	"(starlark.rangeValue).Index: ADD":       "same invariant as the multiplication: start + i*step is an element of the range",
-	"(starlark.rangeValue).Slice: MUL":       "start <= len: r.start + r.step*start is an element (or the end) of the range",
-	"(starlark.rangeValue).Slice: ADD":       "same invariant",
-	"(starlark.rangeValue).Slice: MUL #2":    "end <= len: r.start + r.step*end is an element (or the end) of the range",
-	"(starlark.rangeValue).Slice: ADD #2":    "same invariant",
-	"(starlark.rangeValue).contains: SUB":    "a wrapped delta cannot alias an in-range one: start+d is an element of the range, so start+d+-2^64 is not an int64; the later divisibility/range test therefore still answers correctly",
+	"(starlark.rangeValue).Index: MUL":    "0 <= i < len, and len was computed so that start + i*step is an element between start and stop (sound whenever rangeLen did not overflow, which is the separate known finding)",
+	"(starlark.rangeValue).Index: ADD":    "same invariant as the multiplication: start + i*step is an element of the range",
+	"(starlark.rangeValue).Slice: MUL":    "start <= len: r.start + r.step*start is an element (or the end) of the range",
+	"(starlark.rangeValue).Slice: ADD":    "same invariant",
+	"(starlark.rangeValue).Slice: MUL #2": "end <= len: r.start + r.step*end is an element (or the end) of the range",
+	"(starlark.rangeValue).Slice: ADD #2": "same invariant",
+	"(starlark.rangeValue).contains: SUB": "a wrapped delta cannot alias an in-range one: start+d is an element of the range, so start+d+-2^64 is not an int64; the later divisibility/range test therefore still answers correctly",
 }
 
 // i6Known: confirmed genuine overflow sites (also listed in known_findings.json).
